@@ -324,7 +324,7 @@ def main():
         uses0 = [("dense", lambda z: z * (2.0 + (1j if onp.iscomplexobj(zc) else 0.0))), ("dense", lambda z: z * 3.0), ("index ()", lambda z: z[()] * 5.0),
                  ("index ...", lambda z: z[...] * 7.0), ("index None", lambda z: z[None][0] * 11.0)] if not isinstance(zc, complex) else \
                 [("dense", lambda z: z * (2.0 + 1j)), ("dense", lambda z: z * 3.0), ("dense", lambda z: z * 1j)]
-        for perm in list(_it0.permutations(range(len(uses0))))[:: max(1, len(uses0) * 4)]:
+        for perm in [p_ for k_ in range(2, len(uses0) + 1) for p_ in _it0.permutations(range(len(uses0)), k_)]:
             out["nested"]["n"] += 1
             dist("program:zero-d-mix")
 
